@@ -244,7 +244,7 @@ func (it *Interp) globalCell(g *ssa.Global) *ICell {
 	it.globals[g] = cell
 	mutable := false
 	it.c.EachRootFunc(func(fn *ssa.Function) {
-		if fn.Name() == "init" && fn.Pkg == g.Pkg {
+		if FNm(fn) == "init" && fn.Pkg == g.Pkg {
 			return
 		}
 		AllInstrs(fn, func(i ssa.Instruction) {
@@ -346,7 +346,7 @@ func (it *Interp) staticValue(v ssa.Value, cell *ICell, in *ssa.Function, depth 
 		it.staticValue(x.X, cell, in, depth+1)
 	case *ssa.Function:
 		if !cell.aggregate() {
-			cell.V = IVal{K: ivOpaque, S: "func " + x.Name(), NonNil: true, F: x}
+			cell.V = IVal{K: ivOpaque, S: "func " + FNm(x), NonNil: true, F: x}
 		}
 	case *ssa.Call:
 		// a value computed once by a function of the analysed packages that takes nothing (var t = func() (a [256]bool)
@@ -476,7 +476,7 @@ func (it *Interp) run(fn *ssa.Function, args []IVal, depth int) ([]IVal, error) 
 		case *ssa.Global:
 			return IPtr(it.globalCell(x))
 		case *ssa.Function:
-			return IVal{K: ivOpaque, S: "func " + x.Name(), NonNil: true, F: x}
+			return IVal{K: ivOpaque, S: "func " + FNm(x), NonNil: true, F: x}
 		}
 		return IVal{K: ivOpaque, S: v.Name()}
 	}
@@ -502,7 +502,7 @@ func (it *Interp) run(fn *ssa.Function, args []IVal, depth int) ([]IVal, error) 
 			case *ssa.Store:
 				a := get(x.Addr)
 				if a.K != ivPtr {
-					return nil, fmt.Errorf("%s: store through %s", fn.Name(), a)
+					return nil, fmt.Errorf("%s: store through %s", FNm(fn), a)
 				}
 				v := get(x.Val)
 				a.P.Written++
@@ -588,13 +588,13 @@ func (it *Interp) run(fn *ssa.Function, args []IVal, depth int) ([]IVal, error) 
 					ix := idx.I
 					if base.K == ivSlice {
 						if ix < 0 || ix >= base.Hi-base.Lo {
-							return nil, &IPanic{fmt.Sprintf("%s: index %d out of range", fn.Name(), ix)}
+							return nil, &IPanic{fmt.Sprintf("%s: index %d out of range", FNm(fn), ix)}
 						}
 						ix += base.Lo
 					}
 					e := base.P.Elems[ix]
 					if e == nil {
-						return nil, &IPanic{fmt.Sprintf("%s: index %d out of range", fn.Name(), idx.I)}
+						return nil, &IPanic{fmt.Sprintf("%s: index %d out of range", FNm(fn), idx.I)}
 					}
 					env[x] = IPtr(e)
 				} else {
@@ -606,7 +606,7 @@ func (it *Interp) run(fn *ssa.Function, args []IVal, depth int) ([]IVal, error) 
 				case base.K == ivAgg && idx.K == ivInt:
 					e := base.P.Elems[idx.I]
 					if e == nil {
-						return nil, &IPanic{fmt.Sprintf("%s: index %d out of range", fn.Name(), idx.I)}
+						return nil, &IPanic{fmt.Sprintf("%s: index %d out of range", FNm(fn), idx.I)}
 					}
 					env[x] = cellValue(e)
 				case base.K == ivStr && idx.K == ivInt && idx.I >= 0 && idx.I < int64(len(base.S)):
@@ -712,7 +712,7 @@ func (it *Interp) run(fn *ssa.Function, args []IVal, depth int) ([]IVal, error) 
 			case *ssa.If:
 				cnd := get(x.Cond)
 				if cnd.K != ivBool {
-					return nil, fmt.Errorf("%s: branch on %s (%s)", fn.Name(), cnd, Desc(x.Cond))
+					return nil, fmt.Errorf("%s: branch on %s (%s)", FNm(fn), cnd, Desc(x.Cond))
 				}
 				if cnd.B {
 					next = blk.Succs[0]
@@ -728,15 +728,15 @@ func (it *Interp) run(fn *ssa.Function, args []IVal, depth int) ([]IVal, error) 
 				}
 				return out, nil
 			case *ssa.Panic:
-				return nil, fmt.Errorf("%s: panics", fn.Name())
+				return nil, fmt.Errorf("%s: panics", FNm(fn))
 			case ssa.Value:
 				env[x] = IVal{K: ivOpaque, S: fmt.Sprintf("%T", in)}
 			default:
-				return nil, fmt.Errorf("%s: unmodelled instruction %T", fn.Name(), in)
+				return nil, fmt.Errorf("%s: unmodelled instruction %T", FNm(fn), in)
 			}
 		}
 		if next == nil {
-			return nil, fmt.Errorf("%s: fell off block %d", fn.Name(), blk.Index)
+			return nil, fmt.Errorf("%s: fell off block %d", FNm(fn), blk.Index)
 		}
 		prev, blk = blk, next
 	}
@@ -925,7 +925,7 @@ func (it *Interp) call(x *ssa.Call, get func(ssa.Value) IVal, depth int) (IVal, 
 			if len(fv.F.Blocks) > 0 && (curProgRoot(fv.F) || fv.F.Parent() != nil && len(fv.F.FreeVars) == 0) {
 				callee = fv.F
 			} else {
-				dynName = fv.F.String()
+				dynName = FStr(fv.F)
 			}
 		}
 	}
